@@ -431,11 +431,20 @@ fn correspond(it: &Item, entry: Entry, log: &[CapsCall], out: &mut Buf) {
     let mut seen = BTreeSet::new();
     let mut prev_after: Option<(Vec<&'static str>, Option<String>)> = None;
     for c in log {
+        if std::env::var("SQV_C16_DEBUG").is_ok() {
+            eprintln!("CALL raw={:?} policy={} name={} before={:?}/{:?} after={:?}/{:?} fixed={:?}", c.raw, c.policy, c.policy_name, c.refuted_before, c.latest_before, c.refuted_after, c.latest_after, c.fixed);
+        }
         // memory threads from call to call within a crawl; a new crawl starts empty
         let fresh = c.refuted_before.is_empty() && c.latest_before.is_none();
         let threaded = fresh || prev_after.as_ref().is_some_and(|(r, l)| r == &c.refuted_before && l == &c.latest_before);
         out.hyp("H_memory_threads", "blocking", threaded, json!({"input": input, "raw": c.raw, "before": c.refuted_before, "previous_after": prev_after.as_ref().map(|p| p.0.clone())}));
         prev_after = Some((c.refuted_after.clone(), c.latest_after.clone()));
+        if c.description.as_deref() == Some("<panicked>") {
+            // the rule body panicked inside handle_segment (caught by Rule::crawl and reported as a violation: C03's
+            // subject); the call only explains the memory the next call starts from
+            out.count("handle_segment_calls_that_panicked", 1);
+            continue;
+        }
         if !c.raw.is_ascii() || c.fixed.as_ref().is_some_and(|f| !f.is_ascii()) {
             out.count("non_ascii_calls_excluded", 1);
             continue;
